@@ -39,7 +39,7 @@ Print Assumptions C07_error_or_unevaluable_fails.
    (model/C07_Equality.v), tied to the implementation by the correspondence run on every ordered pair of the operand universe;
    proved for values of any size and nesting built from scalars, lists, tuples, sets and frozensets. *)
 From Coq Require Import QArith Qabs.
-From Pedal Require Import model.C07_Equality proof.C07_Equality_Lemmas proof.C07_Equality_Dicts.
+From Pedal Require Import model.C07_Equality proof.C07_Equality_Lemmas proof.C07_Equality_Dicts proof.C07_Equality_DictSym.
 
 Theorem C07_equality_is_order_independent :
   forall exact delta a e, dfree a = true -> dfree e = true -> equality_test exact delta a e = equality_test exact delta e a.
@@ -83,3 +83,9 @@ Theorem C07_equality_reflexive_any_value :
   forall exact delta a, 0 < delta -> wfv a = true -> equality_test exact delta a a = true.
 Proof. exact equality_reflexive_any_value. Qed.
 Print Assumptions C07_equality_reflexive_any_value.
+
+(* ... and the order independence itself (proof/C07_Equality_DictSym.v: pigeonhole on the key lists) *)
+Theorem C07_equality_is_order_independent_any_value :
+  forall exact delta a e, wfv a = true -> wfv e = true -> equality_test exact delta a e = equality_test exact delta e a.
+Proof. exact equality_is_order_independent_any_value. Qed.
+Print Assumptions C07_equality_is_order_independent_any_value.
